@@ -285,7 +285,7 @@ MANIFEST_TEXT["C08"] = {
     "technique": "Lean 4 invariant + refinement proof + differential operation histories"}
 
 MANIFEST_TEXT.update({
-    "C01": {"text": "Proof: (l) text to tokens: the lexer model (maximal munch over all token rules of gengine.g4; token-type, literal, keyword, rule-body and priority tables regenerated on every run from the generated lexer and the grammar file and judged by kernel-decided obligations C01_lex_*_regenerated): C01_lex_partition / C01_lex_reject (an accepted text is exactly the concatenation of its tokens, blanks and comments; a rejected one has a position where no rule matches), C01_lex_name / C01_lex_int / C01_lex_real / C01_lex_string / C01_lex_fixed (names, keywords in any spelling, digit strings and plain string literals of any length and every fixed token are one token of their kind; a sign is never part of a number), C01_lex_spaced (round trip of blank-separated token lists); differential run lex compares kinds and texts of all tokens and the presence of an error with the generated ANTLR lexer (hook builder.VerifTokens). (p) text to tree: C01_parse_roundtrip - the parser model (ANTLR's precedence-climbing form of the rules expression / mathExpression, its precedence table regenerated on every run from the generated parser and cross-checked against the grammar file by kernel-decided obligations) reads back every canonical tree (brackets exactly where an operand binds looser than, or on the right as loosely as, its operator; any shape, depth, redundant brackets) from the tree's tokens, so * / bind tighter than + -, arithmetic tighter than comparison, comparison tighter than && / || (one level), left associativity and parentheses hold for all expressions; clause theorems on the smallest distinguishing texts; differential run eval/parse compares the model with the real parser on random bracketings and damaged strings (accept / reject, listener shape, value). (a) arith_correct / cmp_correct / goCmpInt_exact: the code's arithmetic and comparison primitives equal the reference semantics for all operand values of all kinds (64-bit wrapping, float promotion, exact integer comparison, string concat, errors for ill-typed operands and zero divisors); (b) lowerX_correct: the interpreter on the AST shape the listener builds computes the reference meaning of every well-formed expression tree in every environment, for arbitrary primitives; (c) C01_end_to_end / C01_interpreter_reference: on every well-kinded environment the meaning with the code's primitives and with the reference primitives agree - same environment afterwards, same value, or both fail - by mutual induction over trees with well-kindedness as an invariant of the data layer (getValue / element reads / conversions / stores / the function library preserve it). Differential runs (random trees, kind x kind x operator matrix with boundary values, @-constants) tie model, listener shape and primitives to the code.",
+    "C01": {"text": "Proof: (l) text to tokens: the lexer model (maximal munch over all token rules of gengine.g4; token-type, literal, keyword, rule-body and priority tables regenerated on every run from the generated lexer and the grammar file and judged by kernel-decided obligations C01_lex_*_regenerated): C01_lex_partition / C01_lex_reject / C01_lex_guard_never_rejects (an accepted text is exactly the concatenation of its tokens, blanks and comments; a rejected one has a position where no rule matches), C01_lex_name / C01_lex_int / C01_lex_real / C01_lex_string / C01_lex_fixed (names, keywords in any spelling, digit strings and plain string literals of any length and every fixed token are one token of their kind; a sign is never part of a number), C01_lex_spaced (round trip of blank-separated token lists); differential run lex compares kinds and texts of all tokens and the presence of an error with the generated ANTLR lexer (hook builder.VerifTokens). (p) text to tree: C01_parse_roundtrip - the parser model (ANTLR's precedence-climbing form of the rules expression / mathExpression, its precedence table regenerated on every run from the generated parser and cross-checked against the grammar file by kernel-decided obligations) reads back every canonical tree (brackets exactly where an operand binds looser than, or on the right as loosely as, its operator; any shape, depth, redundant brackets) from the tree's tokens, so * / bind tighter than + -, arithmetic tighter than comparison, comparison tighter than && / || (one level), left associativity and parentheses hold for all expressions; clause theorems on the smallest distinguishing texts; differential run eval/parse compares the model with the real parser on random bracketings and damaged strings (accept / reject, listener shape, value). (a) arith_correct / cmp_correct / goCmpInt_exact: the code's arithmetic and comparison primitives equal the reference semantics for all operand values of all kinds (64-bit wrapping, float promotion, exact integer comparison, string concat, errors for ill-typed operands and zero divisors); (b) lowerX_correct: the interpreter on the AST shape the listener builds computes the reference meaning of every well-formed expression tree in every environment, for arbitrary primitives; (c) C01_end_to_end / C01_interpreter_reference: on every well-kinded environment the meaning with the code's primitives and with the reference primitives agree - same environment afterwards, same value, or both fail - by mutual induction over trees with well-kindedness as an invariant of the data layer (getValue / element reads / conversions / stores / the function library preserve it). Differential runs (random trees, kind x kind x operator matrix with boundary values, @-constants) tie model, listener shape and primitives to the code.",
             "note": EVAL_NOTE, "technique": "Lean 4 proof (lexer partition / round trip by induction over fuel and token lists, parser round-trip by structural induction with fuel monotonicity, value-level equalities, structural induction over expression trees; kernel-decided regenerated grammar / arithmetic tables) + differential runs incl. lexer token streams, listener-shape and parser comparison"},
     "C02": {"text": "Proof: C02_end_to_end (for the recover sites and loop bound regenerated from the source): executing a rule - interpreter with the code's own primitives on the AST the listener builds - ends in the same environment (host state, observer trace) with the same outcome, return flag and value as the reference semantics with reference primitives, for every well-formed program with well-kinded literals and every well-kinded environment (the driver checks these hypotheses on every generated case with a proved-sound executable test). It composes rule_refines: for every well-formed statement program, environment and primitives, RuleEntity.Execute's model on the listener's AST equals the reference meaning (source order, first true branch, for/forRange, break/continue innermost, return from any depth, compound assignment, flat locals); clause theorems read each sentence off the reference semantics (loops absorb break/continue, forRange visits each key once, step after continue). Differential runs on random statement programs compare value, host state and observer trace.",
             "note": EVAL_NOTE, "technique": "Lean 4 refinement proof (mutual structural induction) + clause theorems + differential runs"},
